@@ -1,8 +1,12 @@
+#![allow(dead_code, unused_imports)]
 //! rdv — runtime monitors for rand_distr (see /verif/DESIGN.md).
 //! usage: rdv <subcommand> <job.json> [--out file]
 mod common;
 mod fam;
 mod mon_adv;
+mod mon_alias;
+mod mon_ctor;
+mod mon_tree;
 mod rng;
 mod subject;
 
@@ -37,6 +41,11 @@ fn main() {
     match cmd {
         "adv" => mon_adv::run(&job),
         "replay-adv" => mon_adv::replay(&job),
+        "ctor" => mon_ctor::run(&job),
+        "c08" => mon_alias::run(&job),
+        "c09" => mon_tree::run_c09(&job),
+        "c10" => mon_tree::run_c10(&job),
+        "c10-recount" => mon_tree::run_c10_recount(&job),
         "lattice" => {
             for (n, w) in rng::lattice() {
                 println!("{n} {w:016x}");
